@@ -324,6 +324,8 @@ SCENARIOS = [
     # a fixed vertex that no edge refers to, and a graph whose vertices are all fixed
     ("iter2/isolated-fixed-vertex", V3 + ["PoseR2"], E3, (3,), True, 2, False, False),
     ("iter1/all-fixed", V3, E3, (0, 1, 2), False, 1, False, False),
+    # fix_first_pose=False and no vertex marked: optimize() fixes nothing on its own
+    ("iter1/nothing-fixed", V3, E3, (), False, 1, False, False),
     # 3-D: the ambient length of an SE(3) pose (7) differs from its number of unknowns (6)
     ("iter1/se3-mixed", ["PoseR3", "PoseSE3", "PoseR2", "PoseSE3"], [(1, 0), (3, 1), (2,), (0, 3)], (), True, 1, False, False),
     # a fixed and a free landmark whose initial poses were created from the same ndarray
